@@ -186,6 +186,20 @@ func c01(c *Ctx) {
 		for _, s := range rsz {
 			c.Check(ErrCheckedSite(s), "splituint-size/"+fnName(su), s.Pos(), "a non-canonical multi-byte integer is rejected", "SplitUint64 ignores readSize's canonicality error")
 		}
+		// every other non-empty accept (the multi-byte arm) lies behind a leading-zero reject:
+		// readSize with its error tested (readSize's own reject is decided above), or a direct
+		// first-byte test
+		var multi []Site
+		for _, r := range c.SuccessReturns(su) {
+			v := retVal(r.Instr.(*ssa.Return), 0)
+			if isFirstByte(v) || ConstInt(0)(v) {
+				continue
+			}
+			multi = append(multi, r)
+		}
+		c.Expect(1, len(multi), "multi-byte return of SplitUint64")
+		c.Dom("splituint-multi", su, multi, "multi-byte value", GErrChecked("readSize", rsz),
+			GCond("content[0] != 0", su, Cmp(isFirstByte, token.NEQ, ConstInt(0))))
 	}
 
 	// ---- long-form sizes ----------------------------------------------------------------------------------
